@@ -93,14 +93,14 @@ def parse_tlc_log(text):
 
 
 def tlc_gen_replay(tag, module, consts, invariants, workers=None, timeout_s=1800, also_unopt=False,
-                   replay_workers=None):
+                   replay_workers=None, init="GInit", nxt="GNext"):
     """Run TLC on `module` with a generated cfg; pipe stdout into `vharness replay`.
     Returns (tlcinfo, stats, violations)."""
     d = os.path.join(WORK, tag)
     shutil.rmtree(d, ignore_errors=True)
     os.makedirs(d)
     cfg = os.path.join(d, "mc.cfg")
-    write_cfg(cfg, consts, invariants)
+    write_cfg(cfg, consts, invariants, init, nxt)
     workers = workers or max(2, NCPU - 4)
     replay_workers = replay_workers or max(2, NCPU // 2)
     env = dict(os.environ, VERIF_DATA=os.path.join(ROOT, "data"))
@@ -161,6 +161,175 @@ def tlc_model(tag, module, consts, invariants, workers=None, timeout_s=1800, ini
     if p.returncode == 124:
         raise ToolError("TLC timed out in stage %s" % tag)
     return info
+
+
+# ------------------------------------------------------------------------------------------
+# recording + trace validation (impl -> spec)
+# ------------------------------------------------------------------------------------------
+def record(tag, profile, seed, count, mode="cases", unopt=False, workers=12):
+    d = os.path.join(WORK, tag)
+    shutil.rmtree(d, ignore_errors=True)
+    os.makedirs(d)
+    cmd = [BIN, "record", "--profile", profile, "--seed", str(seed), "--count", str(count), "--mode", mode,
+           "--out", d, "--workers", str(workers)]
+    if unopt:
+        cmd.append("--unopt")
+    t0 = time.time()
+    p = run(cmd, stdout=subprocess.PIPE, stderr=subprocess.STDOUT, text=True)
+    if p.returncode != 0:
+        sys.stderr.write(p.stdout[-2000:])
+        raise ToolError("record failed in stage %s" % tag)
+    st = json.load(open(os.path.join(d, "record_stats.json")))
+    st["wall_s"] = round(time.time() - t0, 1)
+    return d, st
+
+
+def record_suite(tag):
+    """The repository's own test suite, built from REPO's working tree with the tracer hook and run with
+    tracing on: every public call the 1032 tests make becomes a trace event."""
+    d = os.path.join(WORK, tag)
+    shutil.rmtree(d, ignore_errors=True)
+    os.makedirs(os.path.join(d, "trace"))
+    env = dict(os.environ, RUSTFLAGS="--cfg regexml_verif --check-cfg cfg(regexml_verif)",
+               REGEXML_VERIF_TRACE=os.path.join(d, "trace"), CARGO_NET_OFFLINE="true")
+    t0 = time.time()
+    p = run(["cargo", "test", "--offline", "-p", "regexml", "--no-fail-fast", "--target-dir",
+             os.path.join(HARN, "target", "suite")], cwd=REPO, stdout=subprocess.PIPE, stderr=subprocess.STDOUT,
+            text=True, env=env)
+    passed = sum(int(m.group(1)) for m in re.finditer(r"test result: \w+\. (\d+) passed", p.stdout))
+    failed = sum(int(m.group(1)) for m in re.finditer(r"(\d+) failed;", p.stdout))
+    if passed == 0:
+        sys.stderr.write(p.stdout[-3000:])
+        raise ToolError("traced test suite did not run")
+    st = {"tests_passed": passed, "tests_failed": failed, "wall_s": round(time.time() - t0, 1)}
+    log("traced test suite: %d passed, %d failed, %.1fs" % (passed, failed, st["wall_s"]))
+    return d, st
+
+
+def cps_s(a):
+    try:
+        return "".join(chr(c) for c in a)
+    except Exception:
+        return "<bad>"
+
+
+def index_trace(path):
+    """line number (1-based) -> context of the event: pattern, flags, input, call"""
+    regs, its, ctx = {}, {}, {}
+    for n, line in enumerate(open(path, encoding="utf-8"), 1):
+        try:
+            e = json.loads(line)
+        except Exception:
+            ctx[n] = {"call": "unparsable"}
+            continue
+        ev = e.get("ev")
+        c = {"call": ev, "observed": e.get("res"), "cut": e.get("cut", 0)}
+        if ev == "compile":
+            info = {"pat_s": cps_s(e["pat"]), "flags": cps_s(e["flags"]), "x": e.get("xpath", True),
+                    "unopt": e.get("unopt", False)}
+            if e["res"].get("k") == "ok":
+                regs[e["res"]["rid"]] = info
+            c.update(info)
+            c["s_s"] = ""
+        elif ev in ("is_match", "replace_all", "tokenize", "analyze"):
+            c.update(regs.get(e.get("rid"), {}))
+            c["s_s"] = cps_s(e.get("s", []))
+            if "repl" in e:
+                c["repl"] = cps_s(e["repl"])
+            if ev in ("tokenize", "analyze") and e["res"].get("k") == "ok":
+                its[e["res"]["it"]] = dict(c)
+        elif ev in ("tok_next", "ana_next"):
+            base = its.get(e.get("it"), {})
+            c.update({k: base.get(k) for k in ("pat_s", "flags", "x", "unopt", "s_s")})
+            # cut-off notes accumulate over the life of an iterator (a missed match shows up at a later item)
+            base["cutacc"] = int(base.get("cutacc", 0)) | int(e.get("cut", 0))
+            c["cut"] = base["cutacc"]
+        ctx[n] = c
+    return ctx
+
+
+MISMATCH_RE = re.compile(r'^"MISMATCH (\d+) (\S+) (.*)"$')
+STATS_RE = re.compile(r'^"TRACE-STATS (.*)"$')
+
+
+def validate_traces(tag, rec_dir, timeout_s=1800, parallel=None):
+    """One single-worker TLC per trace file, run side by side.  Returns (totals, violations)."""
+    files = sorted(glob.glob(os.path.join(rec_dir, "trace", "*.ndjson")))
+    files = [f for f in files if os.path.getsize(f) > 0]
+    parallel = parallel or min(NCPU, 16)
+    procs = []
+    totals = {"files": len(files), "lines": 0, "consumed": 0, "compared": 0, "unspec": 0, "weak": 0, "unfollowed": 0,
+              "states": 0}
+    viols = []
+    pending = list(files)
+    running = []
+    t0 = time.time()
+
+    def start(f):
+        d = os.path.join(rec_dir, "tlc_" + os.path.basename(f))
+        os.makedirs(d, exist_ok=True)
+        env = dict(os.environ, VERIF_DATA=os.path.join(ROOT, "data"), TRACE=f, TLC_XSS="1g", TLC_XMX="3g", TLC_XMN="256m")
+        out = open(os.path.join(d, "tlc.log"), "w")
+        p = subprocess.Popen(["timeout", str(timeout_s), TLC, "-workers", "1", "-metadir", os.path.join(d, "meta"),
+                              "-cleanup", "-noGenerateSpecTE", "-config", "ApiTrace.cfg", "ApiTrace.tla"],
+                             cwd=SPEC, stdout=out, stderr=subprocess.STDOUT, env=env)
+        return (p, f, d, out)
+
+    while pending or running:
+        while pending and len(running) < parallel:
+            running.append(start(pending.pop(0)))
+        time.sleep(0.2)
+        still = []
+        for (p, f, d, out) in running:
+            if p.poll() is None:
+                still.append((p, f, d, out))
+                continue
+            out.close()
+            text = open(os.path.join(d, "tlc.log")).read()
+            if p.returncode == 124:
+                raise ToolError("TLC timed out validating %s" % f)
+            unescape = lambda s: s.replace('\\"', '"').replace("\\\\", "\\")
+            stats = None
+            ctx = None
+            for line in text.splitlines():
+                m = STATS_RE.match(line)
+                if m:
+                    stats = json.loads(unescape(m.group(1)))
+                m = MISMATCH_RE.match(line)
+                if m:
+                    if ctx is None:
+                        ctx = index_trace(f)
+                    n, kind = int(m.group(1)), m.group(2)
+                    c = ctx.get(n, {})
+                    try:
+                        exp = json.loads(unescape(m.group(3)))[0]
+                    except Exception:
+                        exp = m.group(3)
+                    viols.append({"kind": kind, "pat_s": c.get("pat_s"), "flags": c.get("flags"), "x": c.get("x", True),
+                                  "unopt": c.get("unopt", False), "s_s": c.get("s_s"), "call": c.get("call"),
+                                  "repl": c.get("repl"), "expected": exp, "observed": c.get("observed"),
+                                  "cut": c.get("cut", 0), "trace": f, "line": n})
+            info = parse_tlc_log(text)
+            if stats is None or stats["consumed"] != stats["lines"] or info["errors"]:
+                sys.stderr.write(text[-3000:])
+                raise ToolError("trace %s not consumed / TLC error (%s)" % (f, info["errors"][:2]))
+            for k in ("lines", "consumed", "compared", "unspec", "weak", "unfollowed"):
+                totals[k] += stats[k]
+            totals["states"] += info["distinct"]
+        running = still
+    # faults noted by the recorder's parent (calls that never returned)
+    fp = os.path.join(rec_dir, "faults.ndjson")
+    if os.path.exists(fp):
+        for line in open(fp, encoding="utf-8"):
+            e = json.loads(line)
+            viols.append({"kind": e["kind"], "pat_s": e.get("pat_s"), "flags": e.get("flags"), "x": e.get("x", True),
+                          "unopt": e.get("unopt", False), "s_s": e.get("s_s"), "call": e.get("call"),
+                          "expected": None, "observed": {"k": e["kind"]}, "cut": 0})
+    totals["wall_s"] = round(time.time() - t0, 1)
+    log("trace stage %s: %d files, %d events, %d compared, %d weak, %d unspec, %d mismatches, %.1fs" % (
+        tag, totals["files"], totals["lines"], totals["compared"], totals["weak"], totals["unspec"], len(viols),
+        totals["wall_s"]))
+    return totals, viols
 
 
 # ------------------------------------------------------------------------------------------
